@@ -62,7 +62,7 @@ def streams(seed, tier):
                 cases.append(mk(prof, nm, prof == 0, float=[a]))
             cases.append(mk(prof, nm, False))
     # FLOAT.EXP where the result is about to overflow / has become subnormal (a detour through f64 rounds differently there)
-    for k in range({"quick": 3000, "thorough": 20000, "search": 8000}[tier]):
+    for k in range({"quick": 24000, "thorough": 100000, "search": 30000}[tier]):
         x = rng.uniform(80.0, 104.0) * rng.choice([1, -1, -1])
         cases.append(mk(k % 2, "FLOAT.EXP", False, float=[fbits(x)]))
     for nm in INT1:
